@@ -395,6 +395,7 @@ pub(super) fn derive_schema(input: TokenStream) -> syn::Result<TokenStream> {
                 /* `#[serde(untagged)]` on a variant: this one is written as in an untagged enum */
                 let is_untagged = container_attrs.serde.untagged || variant_attrs.serde.untagged;
                 has_untagged |= is_untagged;
+                let is_newtype = matches!(&v.fields, Fields::Unnamed(u) if u.unnamed.len() == 1);
                 let is_newtype_of_option = matches!(&v.fields, Fields::Unnamed(u) if u.unnamed.len() == 1 && inner_Option(&u.unnamed[0].ty).is_some());
 
                 /* the fields of a variant are renamed by its own `rename_all`, else by `rename_all_fields` of the enum */
@@ -439,6 +440,23 @@ pub(super) fn derive_schema(input: TokenStream) -> syn::Result<TokenStream> {
                             quote! {
                                 ::ohkami::openapi::object()
                                     .property(#tag, #schema)
+                            }
+                        }
+                    }
+
+                    (Some(t), None, _) if is_newtype => {/* Internally tagged newtype: the tag is written among the properties of the content */
+                        let t = LitStr::new(t, Span::call_site());
+                        quote! {
+                            {
+                                let mut schema = ::ohkami::openapi::object();
+                                for (property_name, property_schema, required) in ::ohkami::openapi::schema::RawSchema::from(#schema).into_properties() {
+                                    if required {
+                                        schema = schema.property(property_name, property_schema);
+                                    } else {
+                                        schema = schema.optional(property_name, property_schema);
+                                    }
+                                }
+                                schema.property(#t, ::ohkami::openapi::string().enumerates([#tag]))
                             }
                         }
                     }
